@@ -318,6 +318,9 @@ def rule_e(prog, rep):
         if len(regs) == 1 and len(recs) == 1:
             ko = b.origins(recs[0]['args'][1])
             kn = b.deref_local(recs[0]['args'][1])
+            for _ in range(4):      # `subscription.clone()` of the id built for the subscriber is the same id
+                if isinstance(kn, dict) and kn.get('k') == 'call' and short(callee(kn)) in ('clone', 'to_owned') and kn['args']:
+                    kn = b.deref_local(kn['args'][0])
             if not (kn.get('k') == 'call' and short(callee(kn)) == 'new' and 'SubscriptionId' in callee(kn) and
                     b.origins(kn['args'][0]) == {'param(client_id)'} and b.origins(kn['args'][1]) == {'param(transaction_id)'}):
                 problems.append(f'the record is not keyed by SubscriptionId(client_id, transaction_id) ({sorted(ko)})')
